@@ -120,6 +120,8 @@ class C07:
         "in-process main() with simulated streams stands for `python -m graphtage`; the child interpreters are real "
         "fresh processes, the hash seed and ASLR are controlled from outside",
         "scipy / libyaml / expat run real and uninstrumented; their determinism is covered only as a black box",
+        "a process has one standard input: at most one item per in-process history reads a document from `-`, and each "
+        "of its executions is handed the same bytes",
     ]
     COMPONENTS = {"real": ["graphtage.__main__.main, all loaders and formatters, the whole engine", "child "
                            "interpreters (real processes)", "colorama, tqdm, scipy, PyYAML, expat"],
@@ -151,8 +153,11 @@ class C07:
             else:
                 a, b = gen_texts(w, fmt)
                 opts = gen_opts(w)
-            items.append({"fmt": fmt, "a": a, "b": b, "opts": opts,
-                          "stdin": w.choice([None] * 8 + ["a", "b"])})
+            items.append({"fmt": fmt, "a": a, "b": b, "opts": opts, "stdin": None})
+        # ONE item per history reads one of its documents from `-`: a process has a single standard input, so every
+        # call of the history that reads stdin is handed the same bytes (a process-wide memo of stdin is harmless)
+        if items and w.random() < 0.8:
+            items[w.randrange(len(items))]["stdin"] = w.choice(["a", "b"])
         lib_docs = [sched.gen_workload(w, families=("json", "json", "xml")) for _ in range(2)]
         hist = [{"kind": "main", "item": i, "clock": sc.choice(["frozen", "1ms", "3s"])} for i in range(len(items))] * 2
         hist = [dict(h) for h in hist]
